@@ -2,7 +2,7 @@
 (* A small regular-expression algebra with the matching semantics of Go's regexp (RE2 syntax) on the
    constructs it contains, and its rendering to regexp text.
      [t |-> "eps"]                        empty
-     [t |-> "lit", b |-> byte]            one ASCII byte (rendered escaped when it is a metacharacter)
+     [t |-> "lit", c |-> byte]            one ASCII byte (rendered escaped when it is a metacharacter)
      [t |-> "any"]                        .   (any rune except newline)
      [t |-> "cls", set |-> <<bytes>>, neg |-> B]  [..] / [^..] over ASCII letters and digits (set is a sequence)
      [t |-> "cat"|"alt", a |-> r, b |-> r]
@@ -19,7 +19,7 @@ StarClose(r, s, S) == LET T == S \cup UNION {Ends(r, s, j) : j \in S}
 \* Ends(r, s, i): the set of positions j such that r matches s[i .. j-1]
 Ends(r, s, i) ==
   CASE r.t = "eps"  -> {i}
-    [] r.t = "lit"  -> IF i <= Len(s) /\ s[i] = r.b THEN {i + 1} ELSE {}
+    [] r.t = "lit"  -> IF i <= Len(s) /\ s[i] = r.c THEN {i + 1} ELSE {}
     [] r.t = "any"  -> IF i <= Len(s) /\ s[i] # 10 THEN {i + RuneAt(s, i).w} ELSE {}
     [] r.t = "cls"  -> IF i > Len(s) THEN {}
                        ELSE LET w == RuneAt(s, i).w
@@ -40,7 +40,7 @@ Grp(x) == <<40, 63, 58>> \o x \o <<41>>                       \* (?:x)
 RECURSIVE ReText(_)
 ReText(r) ==
   CASE r.t = "eps"  -> <<>>
-    [] r.t = "lit"  -> IF r.b \in Meta THEN <<92, r.b>> ELSE <<r.b>>
+    [] r.t = "lit"  -> IF r.c \in Meta THEN <<92, r.c>> ELSE <<r.c>>
     [] r.t = "any"  -> <<46>>
     [] r.t = "cls"  -> <<91>> \o (IF r.neg THEN <<94>> ELSE <<>>) \o r.set \o <<93>>
     [] r.t = "cat"  -> (IF r.a.t = "alt" THEN Grp(ReText(r.a)) ELSE ReText(r.a))
@@ -51,7 +51,7 @@ ReText(r) ==
     [] r.t = "opt"  -> Grp(ReText(r.a)) \o <<63>>
 
 \* handy constructors
-RLit(b) == [t |-> "lit", b |-> b]
+RLit(x) == [t |-> "lit", c |-> x]
 RAny == [t |-> "any"]
 REps == [t |-> "eps"]
 RCat(a, b) == [t |-> "cat", a |-> a, b |-> b]
